@@ -170,5 +170,13 @@ def _adt_has_field(ctx, adt, field):
     return bool(a) and any(f.get('name') == field for v in a.get('variants', []) for f in v.get('fields', []))
 
 
+def _r15_4(ctx):
+    import props.c15 as c15
+    c15.r15_4(ctx)
+
+
+_r15_4.__name__ = 'r15_4'
+
+
 def run(ctx):
-    engine.run_rules(ctx, [r18_1, r18_1b, r18_2, dt.r03_4, dt.r03_6, dt.r03_5, dt.r03_8, dt.r02_7, dt.r03_11])
+    engine.run_rules(ctx, [r18_1, r18_1b, r18_2, dt.r03_4, dt.r03_6, dt.r03_5, dt.r03_8, dt.r02_7, dt.r03_11, dt.r03_1, _r15_4])
